@@ -24,7 +24,7 @@ Next == /\ i <= Len(Recs)
                (* xf > 0: the real crate panicked / deadlocked at step xf where the specification (which  *)
                (* predicts the faults of re-entrant use) predicts none: the notifications the aborted call *)
                (* still owed were not delivered                                                           *)
-               crash == IF r.xf > 0 THEN SetToSeq(Cases[r.c].checks \cap (RefProps \cup {"C05", "C10", "C20"})) ELSE <<>>
+               crash == IF r.xf > 0 THEN SetToSeq(Cases[r.c].checks \cap (RefProps \cup {"C05", "C07", "C08", "C09", "C10", "C14", "C16", "C19", "C20"})) ELSE <<>>
                bad == MonRun(Mon0, r.steps, Cases[r.c]) \o crash IN
            PrintT(ToJson([i |-> i, c |-> r.c, form |-> r.form, bad |-> bad]))
         /\ i' = i + 1
